@@ -98,8 +98,75 @@ var selectorColumns = []string{
 	"`grid[each (0:1)]` AS ge1", "`grid[each (begin:1)]` AS ge2", "`grid[each (1:2)]` AS ge3", "`grid[each each]` AS ge4", "`n[each].v` AS nv",
 }
 
+// exprCtx is an expression that has the fault site as an operand: whatever
+// operator, predicate, CASE arm or built-in function a failing call sits under
+// has to hand the failure on. %F% is the stub call, %P% the column prefix,
+// %A% the id of a background call whose argument the stub is.
+type exprCtx struct {
+	name, tpl, arg string // arg: kind of column handed to the stub (num | str | bool)
+	boolean        bool   // usable as a WHERE / HAVING predicate
+}
+
+var exprContexts = []exprCtx{
+	{"add_l", "%F% + 1", "num", false}, {"add_r", "1 + %F%", "num", false}, {"sub", "%F% - 1", "num", false}, {"mul", "2 * %F%", "num", false},
+	{"fdiv", "%F% / 4", "num", false}, {"div", "%F% DIV 3", "num", false}, {"mod", "%F% % 7", "num", false}, {"neg", "-%F%", "num", false},
+	{"tilde", "~%F%", "num", false}, {"bitand", "%F% & 3", "num", false}, {"bitor", "%F% | 1", "num", false}, {"bitxor", "%F% ^ 1", "num", false},
+	{"shl", "%F% << 1", "num", false}, {"shr", "%F% >> 1", "num", false}, {"paren", "(%F% + 1) * 2", "num", false},
+	{"cmp_l", "%F% >= 15", "num", true}, {"cmp_r", "15 <= %F%", "num", true}, {"eq", "%F% = 10", "num", true}, {"ne", "%F% != 10", "num", true},
+	{"between_pt", "%F% BETWEEN 0 AND 15", "num", true}, {"between_lo", "15 BETWEEN %F% AND 100", "num", true}, {"between_hi", "15 BETWEEN 0 AND %F%", "num", true},
+	{"not_between", "%F% NOT BETWEEN 0 AND 15", "num", true}, {"in_l", "%F% IN (10, 30)", "num", true}, {"in_elem", "10 IN (%F%, 30)", "num", true},
+	{"not_in", "%F% NOT IN (10)", "num", true}, {"not_in_elem", "10 NOT IN (30, %F%)", "num", true}, {"is_null", "%F% IS NULL", "num", true}, {"is_not_null", "%F% IS NOT NULL", "num", true},
+	{"not", "NOT (%F% > 15)", "num", true}, {"bang", "!%F%", "bool", true}, {"is_true", "%F% IS TRUE", "bool", true}, {"is_false", "%F% IS FALSE", "bool", true},
+	{"and_l", "%F% > 15 AND TRUE", "num", true}, {"and_r", "TRUE AND %F% > 15", "num", true}, {"or_l", "%F% > 15 OR FALSE", "num", true}, {"or_r", "FALSE OR %F% > 15", "num", true},
+	{"like", "%F% LIKE 'x%'", "str", true}, {"not_like", "%F% NOT LIKE 'xy'", "str", true}, {"like_pattern", "%P%s LIKE %F%", "str", true},
+	{"case_cond", "CASE WHEN %F% > 15 THEN 1 ELSE 0 END", "num", false}, {"case_then", "CASE WHEN TRUE THEN %F% END", "num", false},
+	{"case_else", "CASE WHEN FALSE THEN 1 ELSE %F% END", "num", false}, {"case_second_when", "CASE WHEN FALSE THEN 1 WHEN %F% > 15 THEN 2 ELSE 3 END", "num", false},
+	{"if_cond", "IF(%F% > 15, 1, 0)", "num", false}, {"if_then", "IF(TRUE, %F%, 0)", "num", false}, {"if_else", "IF(FALSE, 0, %F%)", "num", false},
+	{"concat", "CONCAT('a', %F%, 'b')", "num", false}, {"array", "ARRAY(1, %F%)", "num", false}, {"first_array", "FIRST(ARRAY(%F%))", "num", false},
+	{"changetype", "CHANGETYPE(%F%, 'string')", "num", false}, {"hash", "HASH(%F%, 'md5')", "str", false}, {"encode", "ENCODE(%F%, 'hex')", "str", false},
+	{"upper", "TO_UPPER(%F%)", "str", false}, {"tuple", "(%F%, 2)", "num", false}, {"dual_subquery", "(SELECT %F% AS y FROM dual)", "num", false},
+	{"scoped", "SCOPED.%F%", "num", false}, {"async_arg", "ASYNC.fx(%A%, %F%)", "num", false}, {"spinasync_arg", "SPINASYNC.fx(%A%, %F%)", "num", false},
+	{"async_arg_expr", "ASYNC.fx(%A%, 1 + %F%)", "num", false},
+}
+
+func ctxColumn(kind string, pick func([]string) string) string {
+	switch kind {
+	case "str":
+		return "s"
+	case "bool":
+		return "f"
+	}
+	return pick([]string{"a", "id"})
+}
+
+// ctxSQL instantiates a context around site s; aux is the id of the background call in %A% (0: none).
+func (c exprCtx) ctxSQL(prefix string, s, aux int, col string) string {
+	q := strings.ReplaceAll(c.tpl, "%F%", fmt.Sprintf("fid(%d, %s%s)", s, prefix, col))
+	q = strings.ReplaceAll(q, "%P%", prefix)
+	return strings.ReplaceAll(q, "%A%", fmt.Sprint(aux))
+}
+
+func (b *fqBuilder) ctxItem(prefix string, boolOnly bool) (string, exprCtx, int) {
+	var pool []exprCtx
+	for _, c := range exprContexts {
+		if !boolOnly || c.boolean {
+			pool = append(pool, c)
+		}
+	}
+	c := pool[rapid.IntRange(0, len(pool)-1).Draw(b.t, "expr_ctx")]
+	s := b.next("under_" + c.name)
+	aux := 0
+	if strings.Contains(c.tpl, "%A%") {
+		b.site++
+		aux = b.site
+		b.async = append(b.async, aux)
+	}
+	col := ctxColumn(c.arg, func(xs []string) string { return rapid.SampledFrom(xs).Draw(b.t, "ctx_col") })
+	return c.ctxSQL(prefix, s, aux, col), c, s
+}
+
 func (b *fqBuilder) selectItem(prefix string, nestedOK bool) string {
-	kinds := []string{"col", "stub", "concat", "case", "arith", "subquery", "stub", "backref", "once_stub", "if_arg", "between", "in_list", "await_stub"}
+	kinds := []string{"col", "stub", "concat", "case", "arith", "subquery", "stub", "backref", "once_stub", "if_arg", "between", "in_list", "await_stub", "ctx", "ctx", "ctx"}
 	if b.asyncOK {
 		kinds = append(kinds, "async", "spin", "spinasync")
 	}
@@ -111,6 +178,12 @@ func (b *fqBuilder) selectItem(prefix string, nestedOK bool) string {
 	case "stub":
 		s := b.next("select")
 		return fmt.Sprintf("fid(%d, %s) AS x%d", s, col(rapid.SampledFrom([]string{"id", "a", "s"}).Draw(b.t, "col")), s)
+	case "ctx":
+		q, c, s := b.ctxItem(prefix, false)
+		if strings.HasPrefix(c.tpl, "SPIN") {
+			return q // adds no column
+		}
+		return fmt.Sprintf("%s AS x%d", q, s)
 	case "once_stub":
 		// a ONCE-qualified call is synchronous: its failure is the query's failure
 		if b.usedOnce {
@@ -172,7 +245,7 @@ func (b *fqBuilder) selectItem(prefix string, nestedOK bool) string {
 }
 
 func (b *fqBuilder) where(prefix string, nestedOK bool) string {
-	kinds := []string{"none", "stub_cmp", "and", "in_sub", "exists", "like", "not", "between"}
+	kinds := []string{"none", "stub_cmp", "and", "in_sub", "exists", "like", "not", "between", "ctx", "ctx"}
 	k := rapid.SampledFrom(kinds).Draw(b.t, "where_kind")
 	c := rapid.IntRange(0, 4).Draw(b.t, "wc") * 10
 	col := func(x string) string { return prefix + x }
@@ -182,6 +255,9 @@ func (b *fqBuilder) where(prefix string, nestedOK bool) string {
 	case "stub_cmp":
 		s := b.next("where")
 		return fmt.Sprintf(" WHERE fid(%d, %s) >= %d", s, col("a"), c)
+	case "ctx":
+		q, _, _ := b.ctxItem(prefix, true)
+		return " WHERE " + q
 	case "and":
 		s := b.next("where")
 		conn := rapid.SampledFrom([]string{"AND", "OR"}).Draw(b.t, "conn")
